@@ -174,7 +174,12 @@ def do_slice(ex, base, lo, hi, step, st):
             n_ = z3.Length(base.z)
             a_ = z3.IntVal(0) if lo is None else lo
             b_ = n_ if hi is None else hi
-            return cls(sop(ex, st, "SLICE", [base.z, a_, b_], S, lambda: str_slice(base.z, lo, hi)))
+            res = sop(ex, st, "SLICE", [base.z, a_, b_], S, lambda: str_slice(base.z, lo, hi))
+            if not getattr(st, "in_binder", 0):
+                ca = z3.IntVal(0) if lo is None else clamp_index(lo, n_)
+                cb = n_ if hi is None else clamp_index(hi, n_)
+                st.fact(z3.Length(res) == zmax(cb - ca, z3.IntVal(0)))  # ground length fact (survives string abstraction)
+            return cls(res)
         if step == -1:
             n = z3.Length(base.z)
 
@@ -193,6 +198,8 @@ def do_slice(ex, base, lo, hi, step, st):
             return base
         if step in (None, 1):
             n = base.n
+            if getattr(ex, "spec_mode", False) and lo is None and hi is not None:
+                return VList(base.arr, hi, base.ek)  # specifications slice within range by convention
             a = z3.IntVal(0) if lo is None else clamp_index(lo, n)
             b = n if hi is None else clamp_index(hi, n)
             a_s = z3.simplify(a)
@@ -215,6 +222,9 @@ def subscript(ex, base, idx, st):
 
 
 def obj_attr(ex, obj, attr, st):
+    if obj.cls == "Multidecoder" and attr == "decoders":
+        obj.attrs["decoders"] = VObj("registry", {})
+        return obj.attrs["decoders"]
     raise Unsupported(f"attribute {attr} of {obj}")
 
 
@@ -328,11 +338,13 @@ def list_method(ex, recv, name, args, kwargs, st, recv_node):
             if ek is None:
                 raise Unsupported(f"append of {x.kind}")
             arr = z3.K(I, z3.IntVal(0)) if ek in ("int", "ref") else z3.K(I, z3.StringVal(""))
-            bb = z3.StringVal("") if ek == "int" else None
+            bb = z3.StringVal("") if ek in ("int", "bytes") else None
             recv = VList(arr, recv.n, ek, recv.owner, bb)
         if recv.ek != x.kind and not (recv.ek == "ref" and isinstance(x, VRef)):
             raise Unsupported(f"append {x.kind} to list[{recv.ek}]")
         bb = None
+        if recv.ek == "bytes" and recv.bytebuf is not None:
+            bb = z3.Concat(recv.bytebuf, x.z)
         if recv.ek == "int" and recv.bytebuf is not None:
             ch = x.char if x.char is not None else z3.StrFromCode(x.z)
             bb = z3.Concat(recv.bytebuf, ch)
@@ -473,6 +485,7 @@ def _quant(ex, node, st, is_forall):
     bvars, conds = [], []
     view = st.clone()
     view.in_binder += 1
+    view.bound = dict(getattr(st, "bound", {}))
     for nm, r in zip(names, ranges):
         bv = fresh(nm, I)
         bvars.append(bv)
@@ -483,22 +496,20 @@ def _quant(ex, node, st, is_forall):
         elif isinstance(r, ast.Name) and r.id == "refs":
             conds.append(z3.And(0 <= bv, bv < view.alloc))
             view.store[nm] = VRef(bv)
+            view.bound[nm] = VRef(bv)
             continue
         elif isinstance(r, ast.Name) and r.id == "ints":
             pass
         else:
             raise Unsupported("quantifier range")
         view.store[nm] = VInt(bv)
+        view.bound[nm] = VInt(bv)
     body = ex.truthy(ex.eval(lam.body, view), view)
-    for c in view.path[len(st.path) :]:
-        # facts generated under the binder mention bound variables: they must stay inside
-        pass
-    extra = [c for c in view.path[len(st.path) :]]
-    # ground facts about bound variables (byte ranges etc.) become hypotheses inside the quantifier
-    inner_h = z3.And(*extra) if extra else z3.BoolVal(True)
+    # Type-invariant facts produced under the binder mention bound variables: they are dropped (for a hypothesis this
+    # relies on their validity as type invariants; for a goal it only makes the goal stronger).
     if is_forall:
-        return VBool(z3.ForAll(bvars, z3.Implies(z3.And(*conds, inner_h), body)))
-    return VBool(z3.Exists(bvars, z3.And(*conds, inner_h, body)))
+        return VBool(z3.ForAll(bvars, z3.Implies(z3.And(*conds), body)))
+    return VBool(z3.Exists(bvars, z3.And(*conds, body)))
 
 
 def sf_forall(ex, node, st):
@@ -529,6 +540,9 @@ def sf_old(ex, node, st):
     view = st.old.clone()
     view.path = st.path
     view.facts_seen = st.facts_seen
+    view.in_binder = st.in_binder
+    view.store = dict(view.store)
+    view.store.update(getattr(st, "bound", {}))
     return ex.eval(node.args[0], view)
 
 
@@ -540,6 +554,11 @@ def sf_at(ex, node, st):
     view = st.labels[lab].clone()
     view.path = st.path
     view.facts_seen = st.facts_seen
+    view.in_binder = st.in_binder
+    lab_store = view.store
+    view.store = dict(st.store)  # names that did not exist yet (loop variables) denote their current value
+    view.store.update(lab_store)
+    view.store.update(getattr(st, "bound", {}))
     return ex.eval(node.args[1], view)
 
 
@@ -583,6 +602,31 @@ def sf_bytes_of(ex, node, st):
     raise Unsupported("bytes_of on an untracked list")
 
 
+def sf_height(ex, node, st):
+    a = ex.eval(node.args[0], st)
+    return VInt(uf(ex, "HEIGHT", I, I)(a.z))
+
+
+def sf_lo(ex, node, st):
+    a = ex.eval(node.args[0], st)
+    return VInt(uf(ex, "LO", I, I)(a.z))
+
+
+def hi_term(ex, z):
+    """hi(r) := lo(r) + |SPAN(r)|: every ghost interval numbering has lo <= hi by construction."""
+    sp = uf(ex, "SPAN", I, I)(z)
+    return uf(ex, "LO", I, I)(z) + z3.If(sp >= 0, sp, -sp)
+
+
+def sf_hi(ex, node, st):
+    a = ex.eval(node.args[0], st)
+    return VInt(hi_term(ex, a.z))
+
+
+def sf_alloc(ex, node, st):
+    return VInt(st.alloc)
+
+
 def sf_xor(ex, node, st):
     a = ex.eval(node.args[0], st)
     b = ex.eval(node.args[1], st)
@@ -602,9 +646,13 @@ SPEC_FORMS = {
     "fresh": sf_fresh,
     "allocated": sf_allocated,
     "nchildren": sf_nchildren,
-    "child": sf_child,
+    "child_at": sf_child,
     "bytes_of": sf_bytes_of,
     "xor": sf_xor,
+    "height": sf_height,
+    "lo": sf_lo,
+    "hi": sf_hi,
+    "alloc": sf_alloc,
 }
 
 
